@@ -36,6 +36,26 @@ class Minimiser:
         self.max_execs = max_execs
         self.execs = 0
 
+    def _execute(self, scn):
+        """candidates run under a short CPU watchdog: a candidate that hangs is simply 'not the same violation'"""
+        import signal
+
+        class _T(BaseException):
+            pass
+
+        def on_alarm(signum, frame):
+            raise _T()
+
+        old = signal.signal(signal.SIGVTALRM, on_alarm)
+        signal.setitimer(signal.ITIMER_VIRTUAL, float(getattr(self.mod, "RUN_CPU_LIMIT_S", 120.0)))
+        try:
+            return self.mod.execute(scn)
+        except _T:
+            return {"verdict": "hang"}
+        finally:
+            signal.setitimer(signal.ITIMER_VIRTUAL, 0)
+            signal.signal(signal.SIGVTALRM, old)
+
     def out_of_budget(self) -> bool:
         return self.execs >= self.max_execs or time.monotonic() > self.deadline
 
@@ -44,7 +64,7 @@ class Minimiser:
             return False
         self.execs += 1
         try:
-            r = self.mod.execute(scn)
+            r = self._execute(scn)
         except Exception:
             return False
         return r["verdict"] == "violation" and tuple(r["sig"]) == self.sig
@@ -83,7 +103,7 @@ class Minimiser:
         if not self.fails(scn):
             return scn
         # 1. truncate after the violating step
-        r = self.mod.execute(scn)
+        r = self._execute(scn)
         step = r.get("step")
         trunc = getattr(self.mod, "truncate", None)
         if step is not None and trunc is not None:
